@@ -830,7 +830,10 @@ func (c *Conn) finish(r *Ctx, stream uint32, err error) {
 		atomic.AddInt32(&c.openStreams, -1)
 	}
 
-	c.deletePending(stream)
+	// dispatch calls this with r's lock held, so the request is ours already.
+	// Taking the lock again, as deletePending does for a streamed body, would
+	// stop the read loop for good: the lock is not reentrant.
+	c.deletePendingOwned(stream)
 
 	r.markFinished()
 	r.resolve(err)
@@ -1201,6 +1204,18 @@ func (c *Conn) deletePending(id uint32) {
 	defer pb.ctx.release()
 
 	c.closeBodyStream(pb)
+}
+
+// deletePendingOwned is deletePending for a caller that holds the Ctx.
+func (c *Conn) deletePendingOwned(id uint32) {
+	c.sendLck.Lock()
+	pb := c.pending[id]
+	delete(c.pending, id)
+	c.sendLck.Unlock()
+
+	if pb != nil && pb.stream != nil {
+		c.closeBodyStream(pb)
+	}
 }
 
 // pendingIDs snapshots the streams with a body still to send.
